@@ -452,10 +452,14 @@ where
 
         if self.prev_values.is_empty() {
             self.save_state = self.state.clone();
-            if self.time.real() + self.dt.real() * (self.order - Self::Field::one()).real()
-                >= self.end.real()
-            {
-                self.dt = (self.end - self.time) / (self.order - Self::Field::one());
+            // The starting steps are only yielded once an Adams step has confirmed them, so
+            // they need room for that step before the end. Otherwise advance by single
+            // Runge-Kutta steps, which are yielded directly.
+            if self.time.real() + self.dt.real() * self.order.real() >= self.end.real() {
+                self.runge_kutta(1)?;
+                self.prev_values.clear();
+                self.prev_derivatives.clear();
+                return Ok((self.time.real(), self.state.clone()));
             }
             self.runge_kutta(O - 1)?;
             self.yield_memory = O;
